@@ -32,7 +32,7 @@ func flowProblems(bf *builderFlow, r *Report, rule string) bool {
 }
 
 func checkC13(p *Program, r *Report) {
-	r.Explanation = "Decided for all key/value lists: in the abstract wire message returned by the builder (labelled information-flow analysis of NewSlimTrie, context-cloned, field-sensitive, with transitive termination-insensitive control dependence) no shape field — BigInnerCnt, ShortSize, ShortTable, NodeTypeBM.*, Inners.*, ShortBM.*, Leaves.*, InnerPrefixes.EltCnt, InnerPrefixes.PresenceBM.* — carries, by data or control flow, a label of option InnerPrefix, LeafPrefix or Complete. Hence the trie shape (node numbering, labels, step positions, retained keys, values) is the same in all modes with equal DedupValue and the prefix options only add payload: the mechanism behind monotonicity."
+	r.Explanation = "Decided for all key/value lists: in the abstract wire message returned by the builder (labelled information-flow analysis of NewSlimTrie, context-cloned, field-sensitive, with transitive termination-insensitive control dependence) no shape field — BigInnerCnt, ShortSize, ShortTable, NodeTypeBM.*, Inners.*, ShortBM.*, Leaves.*, InnerPrefixes.EltCnt, InnerPrefixes.PresenceBM.* — carries, by data or control flow, a label of option InnerPrefix, LeafPrefix or Complete. Hence the trie shape (node numbering, labels, step positions, retained keys, values) is the same in all modes with equal DedupValue and the prefix options only add payload: the mechanism behind monotonicity. (complete) on the guarded summary, with store effects, of the option normalisation under NewSlimTrie: on every path on which Complete can be true the final value of InnerPrefix and LeafPrefix is a pointer to true whatever the caller supplied, and no flag is left nil."
 	r.NotCovered = "That the payload is only used to reject on the query side (equality of cursor positions between prefix and step mode is a data invariant). Whether a trie is produced at all may depend on an option (termination-insensitive)."
 	r.Trusted = []string{"go/ssa; calls leaving package trie are summarised as pure functions of their arguments (openacid/low helpers, encoders)"}
 	r.Assumptions = []string{"openacid/low helpers called by the builder have no hidden state (checked once by reading: bitmap/bmtree/sigbits/bitstr are pure)"}
@@ -87,7 +87,7 @@ func checkC13(p *Program, r *Report) {
 		}
 		live := false
 		for _, ev := range wf.stores {
-			if ev.ctl[pf.lbl] {
+			if ev.ctl[pf.lbl] || ev.onlyIfOpt(strings.TrimSuffix(strings.TrimPrefix(pf.lbl, "opt:"), "+")) {
 				live = true
 			}
 		}
@@ -225,7 +225,7 @@ func checkOptNormalisation(p *Program, r *Report) {
 }
 
 func checkC17(p *Program, r *Report) {
-	r.Explanation = "Decided for every key set: key material (values that can hold bytes derived from elements of keys: substrings, bit strings, conversions; integers such as labels, steps and lengths are bounded per node and do not count) is stored into the builder state or the returned wire message only under control of option InnerPrefix or LeafPrefix being true, and in the abstract output message it reaches only InnerPrefixes.Bytes and LeafPrefixes.Bytes. So with default options nothing proportional to key length can be stored."
+	r.Explanation = "Decided for every key set: key material (values that can hold bytes derived from elements of keys: substrings, bit strings, conversions; integers such as labels, steps and lengths are bounded per node and do not count) is stored into the builder state or the returned wire message only under control of option InnerPrefix or LeafPrefix being true, and in the abstract output message it reaches only InnerPrefixes.Bytes and LeafPrefixes.Bytes. So with default options nothing proportional to key length can be stored. (width) the element width (FixedSize) of a per-node array outside the value/leaf-prefix payload is not computed from key content (label keydata: every value or decision derived from key elements); (sections) whether a per-node section (pointer field of the message) is built does not depend on key content, except under the emptiness test of the builder's node count — so lengthening keys without moving their branch points cannot change a per-node cost."
 	r.NotCovered = "The numeric bound (8 bytes per key + 256). Single key bytes copied one at a time (byte values are not tracked as key material)."
 	r.Trusted = []string{"go/ssa; pure-function summaries for calls leaving package trie"}
 	bf := newBuilderFlow(p)
